@@ -21,7 +21,10 @@ def all_cases(tier):
         ("StrideConverter(up)", S.c_stride, False, False), ("StrideConverter(up,param=True)", S.c_stride, False, True),
         ("Unpack(2)", S.c_unpack, 2, False, False), ("Unpack(3,rev,param)", S.c_unpack, 3, True, True),
         ("Pack(2,param)", S.c_pack, 2, False, True), ("Pack(3,rev)", S.c_pack, 3, True, False),
-        ("Gate", S.c_gate), ("Gate(sink_ready_when_disabled)", S.c_gate, True), ("Multiplexer(3)", S.c_mux, 3), ("Multiplexer(2)", S.c_mux, 2), ("Demultiplexer(3)", S.c_demux, 3), ("Cast", S.c_cast),
+        ("Gate", S.c_gate), ("Gate(sink_ready_when_disabled)", S.c_gate, True), ("Multiplexer(3)", S.c_mux, 3), ("Multiplexer(2)", S.c_mux, 2), ("Demultiplexer(3)", S.c_demux, 3), ("Cast", S.c_cast), ("Cast(reverse_to)", S.c_cast, (("a", 4), ("b", 4), ("c", 4)), (("x", 6), ("y", 6)), False, True), ("Cast(reverse_from,reverse_to)", S.c_cast, (("a", 4), ("b", 4), ("c", 4)), (("x", 6), ("y", 6)), True, True),
+        ("Cast(reverse_from)", S.c_cast, (("a", 2), ("b", 6)), (("x", 5), ("y", 3)), True, False),
+        ("_DownConverter(6->2,rev)", S.c_down, 3, 2, True), ("_UpConverter(2->6,rev)", S.c_up, 3, 2, True), ("Converter(12->4,rev)", S.c_converter, 12, 4, True), ("Converter(4->12,rev)", S.c_converter, 4, 12, True),
+        ("Unpack(3)", S.c_unpack, 3, False, False), ("Pack(3)", S.c_pack, 3, False, False),
         ("Gearbox(10->4,msb)", S.c_gearbox, 10, 4, True), ("Gearbox(10->4,lsb)", S.c_gearbox, 10, 4, False),
         ("Gearbox(2->10,lsb)", S.c_gearbox, 2, 10, False), ("Gearbox(20->32,msb)", S.c_gearbox, 20, 32, True), ("Gearbox(10->2,msb)", S.c_gearbox, 10, 2, True),
         ("Gearbox(4->8,msb)", S.c_gearbox, 4, 8, True), ("Gearbox(8->4,lsb)", S.c_gearbox, 8, 4, False),   # power-of-two storage: level wraps if one word too many is accepted
